@@ -830,8 +830,8 @@ def unroll_literal_loops(func, limit=4):
                 visit(h.body)
             if isinstance(st, ast.For) and isinstance(st.target, ast.Name) and not st.orelse \
                     and isinstance(st.iter, (ast.Tuple, ast.List)) and 1 <= len(st.iter.elts) <= limit \
-                    and all(isinstance(e, (ast.Name, ast.Attribute, ast.Constant)) and not any(isinstance(x, ast.Call) for x in ast.walk(e))
-                            for e in st.iter.elts):
+                    and all((isinstance(e, (ast.Name, ast.Attribute, ast.Constant)) and not any(isinstance(x, ast.Call) for x in ast.walk(e)))
+                            or (isinstance(e, ast.Call) and _display(e)) for e in st.iter.elts):
                 x = st.target.id
                 own = list(_own_statements(st.body))
                 if x not in _stored_in(st.body) and not any(isinstance(o, (ast.Break, ast.Continue)) for o in own) \
@@ -1357,7 +1357,31 @@ def _display(e):
         return _display(e.left) and _display(e.right)
     if isinstance(e, ast.UnaryOp):
         return _display(e.operand)
+    if isinstance(e, ast.Call) and not e.keywords and isinstance(e.func, (ast.Name, ast.Attribute)) and \
+            src(e.func).split('.')[-1] in ('methodcaller', 'attrgetter', 'itemgetter', 'frozenset') and all(_display(a) for a in e.args):
+        return True         # value objects built from constants
     return False
+
+
+class _Accessors(ast.NodeTransformer):
+    """operator.methodcaller('m', *a)(obj) -> obj.m(*a); operator.attrgetter('a')(obj) -> obj.a"""
+    count = 0
+
+    def visit_Call(self, node):
+        self.generic_visit(node)
+        f = node.func
+        if isinstance(f, ast.Call) and isinstance(f.func, (ast.Name, ast.Attribute)) and not f.keywords and not node.keywords \
+                and len(node.args) == 1 and f.args and isinstance(f.args[0], ast.Constant) and isinstance(f.args[0].value, str) \
+                and f.args[0].value.isidentifier():
+            kind = src(f.func).split('.')[-1]
+            if kind == 'methodcaller':
+                _Accessors.count += 1
+                return ast.copy_location(ast.Call(func=ast.Attribute(value=node.args[0], attr=f.args[0].value, ctx=ast.Load()),
+                                                  args=list(f.args[1:]), keywords=[]), node)
+            if kind == 'attrgetter' and len(f.args) == 1:
+                _Accessors.count += 1
+                return ast.copy_location(ast.Attribute(value=node.args[0], attr=f.args[0].value, ctx=ast.Load()), node)
+        return node
 
 
 def inline_new_constants(prog, known):
@@ -1849,6 +1873,13 @@ class Inliner:
                     self.report.setdefault('unrolled_literal_loops', {})[q] = k
         self.report['inlined_constants'] = inline_new_constants(prog, known_constants())
         if self.report['inlined_constants']:
+            for q, fi in prog.functions.items():
+                if isinstance(fi.node, ast.FunctionDef):
+                    k = unroll_literal_loops(fi.node)
+                    if k:
+                        self.report.setdefault('unrolled_literal_loops', {})[q] = self.report.get('unrolled_literal_loops', {}).get(q, 0) + k
+                    _Accessors().visit(fi.node)
+                    ast.fix_missing_locations(fi.node)
             prog.reindex()
         cands = self.candidates()
         self.report['condition_locals'] = {}
